@@ -258,6 +258,57 @@ func (e *Engine) initStubs() {
 			return tb.False
 		}, nil)
 	}
+	// atomic.Value: the stored interface value lives in the struct's single field
+	avCell := func(p Ptr) Ptr { return Ptr{Obj: p.Obj, Path: pathAppend(p.Path, 0)} }
+	e.visible("(*sync/atomic.Value).Load", func(e *Engine, st *State, th *Thread, c *callCtx) Value {
+		v := e.atomicLoad(st, th, avCell(c.args[0].(Ptr)))
+		if iv, ok := v.(IfaceV); ok {
+			return iv
+		}
+		return IfaceV{}
+	}, nil)
+	e.visible("(*sync/atomic.Value).Store", func(e *Engine, st *State, th *Thread, c *callCtx) Value {
+		iv := c.args[1].(IfaceV)
+		if iv.T == nil {
+			e.raise(st, th, &PanicRec{Val: IfaceV{T: types.Typ[types.String], V: StrV{Arr: tb.ArrLit("sync/atomic: store of nil value into Value"), Off: tb.Int64(0), Len: tb.Int64(41)}}})
+		}
+		e.atomicStore(st, th, avCell(c.args[0].(Ptr)), iv)
+		return nil
+	}, nil)
+	e.visible("(*sync/atomic.Value).Swap", func(e *Engine, st *State, th *Thread, c *callCtx) Value {
+		p := avCell(c.args[0].(Ptr))
+		old := e.atomicLoad(st, th, p)
+		e.atomicStore(st, th, p, c.args[1])
+		if iv, ok := old.(IfaceV); ok {
+			return iv
+		}
+		return IfaceV{}
+	}, nil)
+	// atomic.Pointer[T]: struct{_ [0]*T; _ noCopy; v unsafe.Pointer}
+	apCell := func(p Ptr) Ptr { return Ptr{Obj: p.Obj, Path: pathAppend(p.Path, 2)} }
+	e.visible("(*sync/atomic.Pointer[T]).Load", func(e *Engine, st *State, th *Thread, c *callCtx) Value {
+		return e.atomicLoad(st, th, apCell(c.args[0].(Ptr)))
+	}, nil)
+	e.visible("(*sync/atomic.Pointer[T]).Store", func(e *Engine, st *State, th *Thread, c *callCtx) Value {
+		e.atomicStore(st, th, apCell(c.args[0].(Ptr)), c.args[1])
+		return nil
+	}, nil)
+	e.visible("(*sync/atomic.Pointer[T]).Swap", func(e *Engine, st *State, th *Thread, c *callCtx) Value {
+		p := apCell(c.args[0].(Ptr))
+		old := e.atomicLoad(st, th, p)
+		e.atomicStore(st, th, p, c.args[1])
+		return old
+	}, nil)
+	e.visible("(*sync/atomic.Pointer[T]).CompareAndSwap", func(e *Engine, st *State, th *Thread, c *callCtx) Value {
+		p := apCell(c.args[0].(Ptr))
+		old := e.atomicLoad(st, th, p).(Ptr)
+		exp := c.args[1].(Ptr)
+		if old.Obj == exp.Obj && old.Path == exp.Path {
+			e.atomicStore(st, th, p, c.args[2])
+			return tb.True
+		}
+		return tb.False
+	}, nil)
 	e.visible("sync/atomic.LoadPointer", func(e *Engine, st *State, th *Thread, c *callCtx) Value {
 		return e.atomicLoad(st, th, c.args[0].(Ptr))
 	}, nil)
@@ -524,6 +575,15 @@ func (e *Engine) initStubs() {
 			panic(&Unsupported{"deferred json Decode"})
 		}
 		e.pushFrame(st, th, helper, nil, []Value{r, useNumber, disallow, c.args[1]}, false)
+		c.pushed = true
+		return nil
+	})
+	e.stub("encoding/json.Unmarshal", func(e *Engine, st *State, th *Thread, c *callCtx) Value {
+		helper := e.vrt.Func("jsonUnmarshal")
+		if helper == nil || c.instr == nil {
+			panic(&Unsupported{"vrt.jsonUnmarshal missing"})
+		}
+		e.pushFrame(st, th, helper, nil, []Value{c.args[0], c.args[1]}, false)
 		c.pushed = true
 		return nil
 	})
